@@ -6,7 +6,8 @@
     linAll 0      sum of the data operands   linAll 1       negation
     linAll 2      shift  (x (i+1))           linAll 3       mask: keep x i where the parameter is ≠ 0
     bilinear _    pointwise product          divLike _      pointwise quotient
-    realPart 0    pointwise real part        realPart 1     pointwise complex conjugate
+    realPart 0    pointwise real part        realPart 1     pointwise imaginary part
+    conj _        pointwise complex conjugate
     nonlin _      pointwise square
 
   Used by `Props/C06.lean` to exhibit programs that are accepted (and are linear), programs that are
@@ -37,8 +38,10 @@ noncomputable def vecDen : PClass → Nat → List Vc → List Vc → Vc
   | .divLike, _, _, [u, v] => u / v
   | .divLike, _, _, _ => 0
   | .realPart, 0, _, [u] => fun i => ((u i).re : ℂ)
-  | .realPart, 1, _, [u] => fun i => (starRingEnd ℂ) (u i)
+  | .realPart, 1, _, [u] => fun i => ((u i).im : ℂ)
   | .realPart, _, _, _ => 0
+  | .conj, _, _, [u] => fun i => (starRingEnd ℂ) (u i)
+  | .conj, _, _, _ => 0
   | .nonlin, _, _, xs => (xs.headD 0) * (xs.headD 0)
 
 noncomputable def vecInterp : Interp Vc := ⟨vecDen⟩
@@ -68,6 +71,11 @@ theorem headD_lsmul (c : ℂ) (xs : List Vc) : (lsmul c xs).headD 0 = c • xs.h
   cases xs <;> simp [lsmul]
 
 theorem vecInterp_sound : vecInterp.Sound ℝ ℂ where
+  star_real := fun r => by simp
+  conj_add := fun p ps u u' => by
+    simp only [vecInterp, vecDen]; funext i; simp
+  conj_smul := fun p ps c u => by
+    simp only [vecInterp, vecDen]; funext i; simp
   lit_zero := fun _ _ => rfl
   lin_add := by
     intro p ps xs ys h
@@ -150,7 +158,16 @@ abbrev affProg : Prog :=
   { nin := 1, eqns := [⟨.lit false, 1, [], []⟩, ⟨.linAll, 0, [], [0, 1]⟩], outs := [2] }
 
 /-- `y = conj x` -/
-abbrev conjProg : Prog := { nin := 1, eqns := [⟨.realPart, 1, [], [0]⟩], outs := [1] }
+abbrev conjProg : Prog := { nin := 1, eqns := [⟨.conj, 0, [], [0]⟩], outs := [1] }
+
+/-- `y = conj (3 * conj x)` : the shape of an adjoint derived by `scico.linear_adjoint` and of `A.T` -/
+abbrev conjConjProg : Prog :=
+  { nin := 1
+    eqns := [⟨.conj, 0, [], [0]⟩, ⟨.lit false, 3, [], []⟩, ⟨.bilinear, 0, [], [2, 1]⟩, ⟨.conj, 0, [], [3]⟩]
+    outs := [4] }
+
+/-- `y = Re x` -/
+abbrev reProg : Prog := { nin := 1, eqns := [⟨.realPart, 0, [], [0]⟩], outs := [1] }
 
 /-- `y = where(x ≠ 0, x, 0)` with a data-dependent predicate -/
 abbrev dataMaskProg : Prog := { nin := 1, eqns := [⟨.linAll, 3, [0], [0]⟩], outs := [1] }
@@ -179,6 +196,16 @@ theorem conjProg_run (x : Fin conjProg.nin → Vc) (j : Fin conjProg.outs.length
     run vecInterp conjProg x j i = (starRingEnd ℂ) (x ⟨0, by decide⟩ i) := by
   rw [fin_one_of rfl j]
   simp [run, finalEnv, evalEqns, stepVal, valOf, conjProg, vecInterp, vecDen, List.ofFn_succ]
+
+theorem reProg_run (x : Fin reProg.nin → Vc) (j : Fin reProg.outs.length) (i : ℕ) :
+    run vecInterp reProg x j i = ((x ⟨0, by decide⟩ i).re : ℂ) := by
+  rw [fin_one_of rfl j]
+  simp [run, finalEnv, evalEqns, stepVal, valOf, reProg, vecInterp, vecDen, List.ofFn_succ]
+
+theorem reProg_not_complex_linear : ¬ IsLinearMap ℂ (run vecInterp reProg) := by
+  intro h
+  have h1 := congrFun (congrFun (h.map_smul Complex.I (fun _ _ => 1)) ⟨0, by decide⟩) 0
+  simp [reProg_run, Complex.ext_iff] at h1
 
 theorem conjProg_not_complex_linear : ¬ IsLinearMap ℂ (run vecInterp conjProg) := by
   intro h
